@@ -134,6 +134,10 @@ pub fn append_stream(ctx: &mut Ctx) {
 		history::<String>(ctx, "String", &mut rng, deque, start, &batches);
 		history::<Vec<u8>>(ctx, "Vec<u8>", &mut rng, deque, start, &batches);
 		history::<()>(ctx, "()", &mut rng, deque, start, &batches);
+		// floats: whole sequences are written in bulk, appended items one at a time - bit for bit the
+		// same, whatever the value (signalling NaNs included)
+		history::<f32>(ctx, "f32", &mut rng, deque, start, &batches);
+		history::<f64>(ctx, "f64", &mut rng, deque, start, &batches);
 		history::<TwinU32>(ctx, "TwinU32", &mut rng, deque, start, &batches);
 		// zero-sized in memory, one byte on the wire
 		history::<crate::derived::Marker>(ctx, "Marker", &mut rng, deque, start, &batches);
